@@ -320,6 +320,13 @@ class Driver:
             drv.k += 1
             return await orig()
         ex._run_once = counted
+        # `for task in await self._wait_for_tasks()` iterates a Python set (arbitrary order); the harness hands the
+        # finished tasks over in creation order, which is the order the model uses
+        orig_wait = ex._wait_for_tasks
+        async def ordered_wait():
+            fin = await orig_wait()
+            return sorted(fin, key=lambda t: drv.coro_seq[id(t.get_coro())][0])
+        ex._wait_for_tasks = ordered_wait
         for p in patches:
             p.start()
         status = None
@@ -732,7 +739,8 @@ class HttpWorld:
             key = repr(sorted(opts.items(), key=lambda kv: kv[0]))
             flags = _HTTP_FLAGS.get(key)
             if flags is None:
-                flags = _HTTP_FLAGS[key] = FlagParser.initialize(**opts)
+                args = opts.pop('args', None)
+                flags = _HTTP_FLAGS[key] = FlagParser.initialize(args, **opts)
             for c in self.convs:
                 c.update(state='waiting', events=[], upstream_socks=[], connect_failures=0)
                 for h in c.get('hosts', []):
